@@ -1307,8 +1307,29 @@ mod lp {
                 }
                 for (na, rid) in pings {
                     let Some(p) = peers.iter().position(|e| e.node_id() == na.node_id) else { continue };
-                    if rng.chance(1, 12) {
-                        w.trace.push(format!("PING to peer {} stays unanswered", p));
+                    if rng.chance(1, 8) {
+                        // the PING stays unanswered; mostly the handler gives the request up after its retries and
+                        // reports the failure (the peer is marked disconnected). Votes are "the most recent unexpired
+                        // vote" of a peer: a vote it has cast before stays what it is until it expires
+                        if rng.chance(3, 4) {
+                            w.trace.push(format!("PING to peer {} stays unanswered: the request fails (timeout)", p));
+                            let before = w.view();
+                            if !w.svc.inject(HandlerOut::RequestFailed(rid, discv5::RequestError::Timeout)) {
+                                w.failures.push(("the service no longer accepts handler events".into(), w.trace.len() - 1));
+                                break;
+                            }
+                            settle().await;
+                            w.hist.add("loop:ping_request_failed");
+                            if w.ledger.fam.iter().any(|f| f.contains_key(&(p as u64))) {
+                                w.hist.add("loop:request_to_a_peer_that_has_voted_failed");
+                            }
+                            w.observe(before, Cause::Other, g.min, g.auto_nat, None);
+                            if !w.failures.is_empty() {
+                                break;
+                            }
+                        } else {
+                            w.trace.push(format!("PING to peer {} stays unanswered", p));
+                        }
                         continue;
                     }
                     let v6 = rng.chance(g.v6_share, 10);
